@@ -12,11 +12,17 @@
     Hypotheses (all about the cache-free reference semantics, none about the cached run):
     - every cache id [c] is used with ONE cached expression [sites c] (coherence; datasets and
       their with_options derivatives share the Cached node, so this is how labrea builds them);
-    - every dictionary of the history is clean for every cached expression ([clean_at]: each
-      present option the evaluation reads is reported by keys() — false exactly in the zones of
-      the known findings D1/D3/D4/D9/D19) and the cached value holds no generator (D21);
-    - a cached expression that evaluates also validates ([EVV]: half of C10's agreement; labrea's
-      Cached.validate answers "valid" on a hit without validating). *)
+    - every dictionary that REACHES a cache site (the operation's dictionary overlaid by the
+      pre-set / default wrappers above the site: a dataset with options P and default options D0
+      evaluated under o hands D0-overlaid-by-o-overlaid-by-P to its cache site) is [okd]: well
+      formed and clean for every cached expression ([clean_at]: each present
+      option the evaluation reads is reported by keys() — false exactly in the zones of the known
+      findings D1/D3/D4/D9/D19), the cached value holds no generator (D21), and C10's agreement
+      holds there as far as Cached relies on it ([agree_at]: when keys() fails, evaluate and
+      validate fail alike; what evaluates also validates — labrea's Cached.validate answers
+      "valid" on a hit without validating);
+    - cached expressions are in [frag]; around and between cache sites every constructor except
+      Map, Template nodes, AllOptions, option domains and effects is allowed ([scoh]). *)
 From Coq Require Import List NArith ZArith Bool Lia.
 Import ListNotations.
 From LV Require Import Model.Base Model.Template Model.Eval Model.Derived Model.EvalRun
@@ -410,54 +416,64 @@ Section CacheSim.
     rewrite H1. destruct (resN n) as [a|c ee] eqn:En; [reflexivity|]. now apply He.
   Qed.
 
-  (** ** coherence: each cache id is used with the one expression [sites] names *)
-  Fixpoint coh (e : expr) : Prop :=
+  (** ** the expressions covered, together with the set [D] of dictionaries that reach them:
+      every constructor except Map, Template nodes, AllOptions, option domains and effects; a
+      pre-set / default wrapper ([EWith]) hands its sub-expression the overlaid dictionaries; a
+      cached expression must be in [frag] (the fragment of the frame theorem), every dictionary
+      reaching the cache site must be [okd], and each cache id is used with the one expression
+      [sites] names (coherence) *)
+  Fixpoint scoh (e : expr) (D : dict -> Prop) {struct e} : Prop :=
     match e with
-    | EOption _ dflt _ => match dflt with Some d => coh d | None => True end
-    | EApply a b => coh a /\ coh b
+    | EValue _ => True
+    | EOption _ dflt dom => dom = None /\ match dflt with Some d => scoh d D | None => True end
+    | EApply a b => scoh a D /\ scoh b D
     | EBind src tbl dflt | ESwitch src tbl dflt =>
-        coh src /\
+        scoh src D /\
         (fix go (l : list (value * expr)) : Prop :=
-           match l with [] => True | (_, x) :: l' => coh x /\ go l' end) tbl /\
-        match dflt with Some d => coh d | None => True end
+           match l with [] => True | (_, x) :: l' => scoh x D /\ go l' end) tbl /\
+        match dflt with Some d => scoh d D | None => True end
     | ECase disp cases dflt =>
-        coh disp /\
+        scoh disp D /\
         (fix go (l : list (expr * expr)) : Prop :=
-           match l with [] => True | (c, r) :: l' => (coh c /\ coh r) /\ go l' end) cases /\
-        match dflt with Some d => coh d | None => True end
+           match l with [] => True | (c, r) :: l' => (scoh c D /\ scoh r D) /\ go l' end) cases /\
+        match dflt with Some d => scoh d D | None => True end
     | ECoalesce ms | EIter ms | EPipe ms =>
-        (fix go (l : list expr) : Prop := match l with [] => True | x :: l' => coh x /\ go l' end) ms
-    | EWith _ _ e | ELogged e | EComp e _ => coh e
-    | ECached c e => coh e /\ match c with CMem cid => sites cid = Some e | CNone => True end
+        (fix go (l : list expr) : Prop := match l with [] => True | x :: l' => scoh x D /\ go l' end) ms
+    | EWith force p e => scoh e (fun o' => exists o, D o /\ o' = with_opts force p o)
+    | ELogged e => scoh e D
+    | EComp e effs => effs = [] /\ scoh e D
+    | ECached c e =>
+        frag e = true /\ (forall o, D o -> okd o) /\ scoh e D /\
+        match c with CMem cid => sites cid = Some e | CNone => True end
     | ECall _ f args kwargs =>
-        coh f /\
-        (fix go (l : list expr) : Prop := match l with [] => True | x :: l' => coh x /\ go l' end) args /\
-        (fix go (l : list expr) : Prop := match l with [] => True | x :: l' => coh x /\ go l' end) kwargs
-    | _ => True
+        scoh f D /\
+        (fix go (l : list expr) : Prop := match l with [] => True | x :: l' => scoh x D /\ go l' end) args /\
+        (fix go (l : list expr) : Prop := match l with [] => True | x :: l' => scoh x D /\ go l' end) kwargs
+    | EMap _ _ | ETemplate _ _ | EAllOptions => False
     end.
 
-  Definition coh_all (l : list expr) : Prop :=
-    (fix go (l : list expr) : Prop := match l with [] => True | x :: l' => coh x /\ go l' end) l.
-  Lemma coh_all_In l : coh_all l -> forall x, In x l -> coh x.
+  Definition scoh_all (l : list expr) (D : dict -> Prop) : Prop :=
+    (fix go (l : list expr) : Prop := match l with [] => True | x :: l' => scoh x D /\ go l' end) l.
+  Lemma coh_all_In l D : scoh_all l D -> forall x, In x l -> scoh x D.
   Proof.
     induction l as [|a l IH]; intros H x Hx; [destruct Hx|].
     destruct H as [Ha Hl]. destruct Hx as [<-|Hx]; auto.
   Qed.
-  Lemma coh_tbl_In (tbl : list (value * expr)) :
+  Lemma coh_tbl_In (tbl : list (value * expr)) D :
     (fix go (l : list (value * expr)) : Prop :=
-       match l with [] => True | (_, x) :: l' => coh x /\ go l' end) tbl ->
-    forall b, In b (map snd tbl) -> coh b.
+       match l with [] => True | (_, x) :: l' => scoh x D /\ go l' end) tbl ->
+    forall b, In b (map snd tbl) -> scoh b D.
   Proof.
     induction tbl as [|[v x] tbl IH]; intros H b Hb; [destruct Hb|].
     destruct H as [Hx Ht]. destruct Hb as [<-|Hb]; auto.
   Qed.
 
-  Definition SimAll (e : expr) : Prop :=
-    forall o, okd o ->
+  Definition SimAll (e : expr) (D : dict -> Prop) : Prop :=
+    forall o, D o ->
       Sim (evalC e o) (evalN e o) /\
       Sim (validateC e o) (validateN e o) /\
       Sim (keysC e o) (keysN e o).
-  Definition SimOpt (x : option expr) : Prop := match x with Some e => SimAll e | None => True end.
+  Definition SimOpt (x : option expr) (D : dict -> Prop) : Prop := match x with Some e => SimAll e D | None => True end.
 
   Ltac unfC L := rewrite !(L store mem_find mem_store cfg u fuel site_ok).
   Ltac unfN L := rewrite !(L unit nc_find nc_store cfg_nc u fuel (fun _ _ => true)).
@@ -704,15 +720,14 @@ Section CacheSim.
     - destruct dflt as [d|]; [now apply Hd|leaf].
   Qed.
 
-  Theorem sim_all e : frag e = true -> coh e -> SimAll e.
+  Theorem sim_all e : forall D, scoh e D -> SimAll e D.
   Proof.
-    induction e using expr_ind'; intros Hf Hc; cbn [frag] in Hf; cbn [coh] in Hc; try discriminate;
-      intros o Ho; pose proof Ho as [Hw Hsites].
+    induction e using expr_ind'; intros D Hc; cbn [scoh] in Hc; try contradiction; intros o Ho.
     - (* EValue *)
       split; [|split]; [unf eval_EValue|unf validate_EValue|unf keys_EValue]; leaf.
     - (* EOption *)
-      apply andb_prop in Hf as [Hd Hdom]. destruct dom; [discriminate|].
-      assert (HD : SimOpt dflt) by (destruct dflt; [apply H; assumption|exact I]).
+      destruct Hc as [-> Cd].
+      assert (HD : SimOpt dflt D) by (destruct dflt; [apply H; assumption|exact I]).
       assert (Hev : Sim (option_eval store u fuel (fun x => evalC x o) k dflt None o)
                         (option_eval unit u fuel (fun x => evalN x o) k dflt None o)).
       { apply Sim_option_eval. intros d ->. apply (HD o Ho). }
@@ -728,9 +743,9 @@ Section CacheSim.
         apply Sim_bind; [|intros; leaf].
         apply Sim_pure, Pure_unionM. intros; apply Pure_ref_keys.
     - (* EApply *)
-      apply andb_prop in Hf as [Ha Hb]. destruct Hc as [Ca Cb].
-      destruct (IHe1 Ha Ca o Ho) as (E1 & V1 & K1).
-      destruct (IHe2 Hb Cb o Ho) as (E2 & V2 & K2).
+      destruct Hc as [Ca Cb].
+      destruct (IHe1 D Ca o Ho) as (E1 & V1 & K1).
+      destruct (IHe2 D Cb o Ho) as (E2 & V2 & K2).
       split; [|split].
       + unf eval_EApply. apply Sim_wrap. apply Sim_bind; [exact E1|]. intros x.
         apply Sim_bind; [exact E2|]. intros f. apply Sim_pure, Pure_call_value.
@@ -738,14 +753,12 @@ Section CacheSim.
       + unf keys_EApply. apply Sim_bind; [exact K1|]. intros a.
         apply Sim_bind; [exact K2|]. intros; leaf.
     - (* EBind *)
-      apply andb_prop in Hf as [Hf Hdf]. apply andb_prop in Hf as [Hs Ht].
       destruct Hc as (Cs & Ct & Cd).
-      destruct (IHe Hs Cs o Ho) as (E1 & V1 & K1).
-      assert (HT0 : forall b, In b (map snd tbl) -> SimAll b).
-      { intros b Hb. apply (Forall_tbl_In (fun x => frag x = true -> coh x -> SimAll x) _ H b Hb).
-        - apply (frag_tbl_In _ Ht b Hb).
-        - apply (coh_tbl_In _ Ct b Hb). }
-      assert (HD : SimOpt dflt) by (destruct dflt; [apply H0; assumption|exact I]).
+      destruct (IHe D Cs o Ho) as (E1 & V1 & K1).
+      assert (HT0 : forall b, In b (map snd tbl) -> SimAll b D).
+      { intros b Hb. apply (Forall_tbl_In (fun x => forall D, scoh x D -> SimAll x D) _ H b Hb).
+        apply (coh_tbl_In _ D Ct b Hb). }
+      assert (HD : SimOpt dflt D) by (destruct dflt; [apply H0; assumption|exact I]).
       split; [|split].
       + unf eval_EBind. apply Sim_wrap. apply Sim_bind; [exact E1|]. intros x.
         apply Sim_pick.
@@ -761,14 +774,12 @@ Section CacheSim.
         * intros b Hb. apply (HT0 b Hb o Ho).
         * destruct dflt as [d|]; [apply (HD o Ho)|leaf].
     - (* ESwitch *)
-      apply andb_prop in Hf as [Hf Hdf]. apply andb_prop in Hf as [Hs Ht].
       destruct Hc as (Cs & Ct & Cd).
-      destruct (IHe Hs Cs o Ho) as (E1 & V1 & K1).
-      assert (HT0 : forall b, In b (map snd tbl) -> SimAll b).
-      { intros b Hb. apply (Forall_tbl_In (fun x => frag x = true -> coh x -> SimAll x) _ H b Hb).
-        - apply (frag_tbl_In _ Ht b Hb).
-        - apply (coh_tbl_In _ Ct b Hb). }
-      assert (HD : SimOpt dflt) by (destruct dflt; [apply H0; assumption|exact I]).
+      destruct (IHe D Cs o Ho) as (E1 & V1 & K1).
+      assert (HT0 : forall b, In b (map snd tbl) -> SimAll b D).
+      { intros b Hb. apply (Forall_tbl_In (fun x => forall D, scoh x D -> SimAll x D) _ H b Hb).
+        apply (coh_tbl_In _ D Ct b Hb). }
+      assert (HD : SimOpt dflt D) by (destruct dflt; [apply H0; assumption|exact I]).
       assert (Hdisp : Sim (dispatch_value store (evalC e o) (is_some dflt))
                           (dispatch_value unit (evalN e o) (is_some dflt))).
       { unfold dispatch_value. apply Sim_catch.
@@ -797,38 +808,34 @@ Section CacheSim.
           -- intros a. apply Sim_bind; [exact K1|intros; leaf].
         * destruct dflt as [d|]; [apply (HD o Ho)|leaf].
     - (* ECase *)
-      apply andb_prop in Hf as [Hf Hdf]. apply andb_prop in Hf as [Hs Ht].
       destruct Hc as (Cs & Ct & Cd).
-      destruct (IHe Hs Cs o Ho) as (E1 & V1 & K1).
-      assert (HD : SimOpt dflt) by (destruct dflt; [apply H0; assumption|exact I]).
+      destruct (IHe D Cs o Ho) as (E1 & V1 & K1).
+      assert (HD : SimOpt dflt D) by (destruct dflt; [apply H0; assumption|exact I]).
       split; [|split].
       + unf eval_ECase. apply Sim_wrap. apply Sim_bind; [exact E1|]. intros x.
-        clear IHe E1 V1 K1 Hs Cs. induction H as [|[c r] cases [Hcc Hr] Hrest IH].
+        clear IHe E1 V1 K1 Cs. induction H as [|[c r] cases [Hcc Hr] Hrest IH].
         * destruct dflt as [d|]; [apply (HD o Ho)|leaf].
-        * cbn [fst snd] in *. apply andb_prop in Ht as [Ht1 Ht]. apply andb_prop in Ht1 as [Fc Frr].
-          destruct Ct as [[Cc Cr] Ct].
-          cbv beta iota. apply Sim_bind; [apply (Hcc Fc Cc o Ho)|]. intros p.
+        * cbn [fst snd] in *. destruct Ct as [[Cc Cr] Ct].
+          cbv beta iota. apply Sim_bind; [apply (Hcc D Cc o Ho)|]. intros p.
           apply Sim_bind; [apply Sim_pure, Pure_call_value|]. intros b.
-          destruct (truthy b); [apply (Hr Frr Cr o Ho)|apply IH; assumption].
+          destruct (truthy b); [apply (Hr D Cr o Ho)|apply IH; assumption].
       + unf validate_ECase. apply Sim_bind; [exact V1|]. intros _.
         apply Sim_bind; [exact E1|]. intros x.
-        clear IHe E1 V1 K1 Hs Cs. induction H as [|[c r] cases [Hcc Hr] Hrest IH].
+        clear IHe E1 V1 K1 Cs. induction H as [|[c r] cases [Hcc Hr] Hrest IH].
         * destruct dflt as [d|]; [apply (HD o Ho)|leaf].
-        * cbn [fst snd] in *. apply andb_prop in Ht as [Ht1 Ht]. apply andb_prop in Ht1 as [Fc Frr].
-          destruct Ct as [[Cc Cr] Ct].
-          cbv beta iota. apply Sim_bind; [apply (Hcc Fc Cc o Ho)|]. intros p.
+        * cbn [fst snd] in *. destruct Ct as [[Cc Cr] Ct].
+          cbv beta iota. apply Sim_bind; [apply (Hcc D Cc o Ho)|]. intros p.
           apply Sim_bind; [apply Sim_pure, Pure_call_value|]. intros b.
-          destruct (truthy b); [apply (Hr Frr Cr o Ho)|apply IH; assumption].
+          destruct (truthy b); [apply (Hr D Cr o Ho)|apply IH; assumption].
       + unf keys_ECase. apply Sim_bind; [exact K1|]. intros a.
         apply Sim_bind; [exact E1|]. intros x.
         apply Sim_bind; [|intros; leaf].
-        clear IHe E1 V1 K1 Hs Cs. induction H as [|[c r] cases [Hcc Hr] Hrest IH].
+        clear IHe E1 V1 K1 Cs. induction H as [|[c r] cases [Hcc Hr] Hrest IH].
         * destruct dflt as [d|]; [apply (HD o Ho)|leaf].
-        * cbn [fst snd] in *. apply andb_prop in Ht as [Ht1 Ht]. apply andb_prop in Ht1 as [Fc Frr].
-          destruct Ct as [[Cc Cr] Ct].
-          cbv beta iota. apply Sim_bind; [apply (Hcc Fc Cc o Ho)|]. intros p.
+        * cbn [fst snd] in *. destruct Ct as [[Cc Cr] Ct].
+          cbv beta iota. apply Sim_bind; [apply (Hcc D Cc o Ho)|]. intros p.
           apply Sim_bind; [apply Sim_pure, Pure_call_value|]. intros b.
-          destruct (truthy b); [apply (Hr Frr Cr o Ho)|apply IH; assumption].
+          destruct (truthy b); [apply (Hr D Cr o Ho)|apply IH; assumption].
     - (* ECoalesce *)
       split; [|split].
       + unf eval_ECoalesce. apply Sim_wrap.
@@ -847,8 +854,8 @@ Section CacheSim.
                   end) ms l1)).
         { induction H as [|m ms Hm Hrest IH]; intros l1.
           - leaf.
-          - apply andb_prop in Hf as [Fm Fms]. destruct Hc as [Cm Cms].
-            destruct (Hm Fm Cm o Ho) as (E1 & V1 & K1).
+          - destruct Hc as [Cm Cms].
+            destruct (Hm D Cm o Ho) as (E1 & V1 & K1).
             apply Sim_catch.
             + apply Sim_bind; [exact V1|intros; exact E1].
             + intros c ee. destruct ee; [apply IH; assumption|leaf]. }
@@ -869,8 +876,8 @@ Section CacheSim.
                   end) ms l1)).
         { induction H as [|m ms Hm Hrest IH]; intros l1.
           - leaf.
-          - apply andb_prop in Hf as [Fm Fms]. destruct Hc as [Cm Cms].
-            destruct (Hm Fm Cm o Ho) as (E1 & V1 & K1).
+          - destruct Hc as [Cm Cms].
+            destruct (Hm D Cm o Ho) as (E1 & V1 & K1).
             apply Sim_catch.
             + apply Sim_bind; [exact V1|intros; exact V1].
             + intros c ee. destruct ee; [apply IH; assumption|leaf]. }
@@ -891,40 +898,39 @@ Section CacheSim.
                   end) ms l1)).
         { induction H as [|m ms Hm Hrest IH]; intros l1.
           - leaf.
-          - apply andb_prop in Hf as [Fm Fms]. destruct Hc as [Cm Cms].
-            destruct (Hm Fm Cm o Ho) as (E1 & V1 & K1).
+          - destruct Hc as [Cm Cms].
+            destruct (Hm D Cm o Ho) as (E1 & V1 & K1).
             apply Sim_catch.
             + apply Sim_bind; [exact V1|intros; exact K1].
             + intros c ee. destruct ee; [apply IH; assumption|leaf]. }
         apply G.
     - (* EIter *)
-      assert (HA : forall x, In x es -> SimAll x).
-      { intros x Hx. rewrite Forall_forall in H. apply (H x Hx); [apply (frag_all_In es Hf x Hx)|apply (coh_all_In es Hc x Hx)]. }
+      assert (HA : forall x, In x es -> SimAll x D).
+      { intros x Hx. rewrite Forall_forall in H. apply (H x Hx D). apply (coh_all_In es D Hc x Hx). }
       split; [|split].
       + unf eval_EIter. apply Sim_wrap. apply Sim_bind; [|intros; leaf].
-        clear H Hf Hc. induction es as [|x es IH]; [leaf|].
+        clear H Hc. induction es as [|x es IH]; [leaf|].
         cbv beta iota. apply Sim_catch; [|intros; leaf].
         apply Sim_bind; [apply (HA x (or_introl eq_refl) o Ho)|]. intros v.
         destruct (is_some (deep_err v)); [leaf|].
         apply Sim_bind; [|intros; leaf]. apply IH. intros y Hy. apply HA. now right.
       + unf validate_EIter. apply Sim_iterM. intros x Hx. apply (HA x Hx o Ho).
       + unf keys_EIter. apply Sim_unionM. intros x Hx. apply (HA x Hx o Ho).
-    - (* EWith *)
-      destruct p; [|discriminate].
-      destruct (IHe Hf Hc o Ho) as (E1 & V1 & K1).
+    - (* EWith: the wrapped expression sees the overlaid dictionary, which [D] contains *)
+      destruct (IHe _ Hc (with_opts force p o) (ex_intro _ o (conj Ho eq_refl))) as (E1 & V1 & K1).
       split; [|split].
-      + unf eval_EWith. rewrite !with_opts_nil by assumption. apply Sim_wrap. exact E1.
-      + unf validate_EWith. rewrite !with_opts_nil by assumption. exact V1.
-      + unf keys_EWith. cbv zeta. rewrite !with_opts_nil by assumption.
+      + unf eval_EWith. apply Sim_wrap. exact E1.
+      + unf validate_EWith. exact V1.
+      + unf keys_EWith. cbv zeta.
         apply Sim_bind; [exact K1|]. intros ks. apply Sim_pure, Pure_filter_preset.
     - (* ECached *)
-      destruct Hc as [Ce Hsite].
-      destruct (IHe Hf Ce o Ho) as (E1 & V1 & K1).
+      destruct Hc as (Hf & Hokd & Ce & Hsite). pose proof (Hokd o Ho) as Hok.
+      destruct (IHe D Ce o Ho) as (E1 & V1 & K1).
       split; [|split].
       + unf eval_ECached. destruct c as [cid|]; [|apply Sim_wrap; exact E1].
         cbn [cfg_nc cache_ctx_off orb].
         destruct (cache_ctx_off cfg || cache_opt_off o); [apply Sim_wrap; exact E1|].
-        apply (cached_eval_sim cid e o Hf Ho Hsite (evalC e o) (keysC e o) E1 K1
+        apply (cached_eval_sim cid e o Hf Hok Hsite (evalC e o) (keysC e o) E1 K1
                  (if site_ok e o then ret store tt else emit store (EvDirty cid))).
         intros pre. destruct (site_ok e o).
         * eapply HT_weaken; [|apply HT_ret]. intros a s0 [_ Hp]. exact Hp.
@@ -932,16 +938,15 @@ Section CacheSim.
       + unf validate_ECached. destruct c as [cid|]; [|exact V1].
         cbn [cfg_nc cache_ctx_off orb].
         destruct (cache_ctx_off cfg || cache_opt_off o); [exact V1|].
-        apply (validate_sim cid e o Hf Ho Hsite (keysC e o) (validateC e o) K1 V1).
+        apply (validate_sim cid e o Hf Hok Hsite (keysC e o) (validateC e o) K1 V1).
       + unf keys_ECached. exact K1.
     - (* ECall *)
-      apply andb_prop in Hf as [Hf Hkw]. apply andb_prop in Hf as [Hfn Har].
       destruct Hc as (Cf & Ca & Ck).
-      destruct (IHe Hfn Cf o Ho) as (E1 & V1 & K1).
-      assert (HA : forall x, In x args -> SimAll x).
-      { intros x Hx. rewrite Forall_forall in H. apply (H x Hx); [apply (frag_all_In args Har x Hx)|apply (coh_all_In args Ca x Hx)]. }
-      assert (HK : forall x, In x kwargs -> SimAll x).
-      { intros x Hx. rewrite Forall_forall in H0. apply (H0 x Hx); [apply (frag_all_In kwargs Hkw x Hx)|apply (coh_all_In kwargs Ck x Hx)]. }
+      destruct (IHe D Cf o Ho) as (E1 & V1 & K1).
+      assert (HA : forall x, In x args -> SimAll x D).
+      { intros x Hx. rewrite Forall_forall in H. apply (H x Hx D). apply (coh_all_In args D Ca x Hx). }
+      assert (HK : forall x, In x kwargs -> SimAll x D).
+      { intros x Hx. rewrite Forall_forall in H0. apply (H0 x Hx D). apply (coh_all_In kwargs D Ck x Hx). }
       split; [|split].
       + unf eval_ECall. apply Sim_wrap. apply Sim_bind; [exact E1|]. intros fv.
         apply Sim_bind; [apply Sim_mapM; intros x Hx; apply (HA x Hx o Ho)|]. intros av.
@@ -955,8 +960,8 @@ Section CacheSim.
         apply Sim_bind; [apply Sim_unionM; intros x Hx; apply (HK x Hx o Ho)|]. intros c.
         leaf.
     - (* EComp *)
-      apply andb_prop in Hf as [Hfe Heff]. destruct effects; [|discriminate].
-      destruct (IHe Hfe Hc o Ho) as (E1 & V1 & K1).
+      destruct Hc as [-> Ce].
+      destruct (IHe D Ce o Ho) as (E1 & V1 & K1).
       split; [|split].
       + unf eval_EComp. apply Sim_wrap. apply Sim_bind; [exact E1|]. intros v.
         apply Sim_bind; [|intros; leaf]. destruct (effects_opt_off o); [leaf|]. apply Sim_pure, Pure_iterM. intros ? [].
@@ -964,7 +969,7 @@ Section CacheSim.
         destruct (effects_opt_off o); [leaf|]. apply Sim_pure, Pure_iterM. intros ? [].
       + unf keys_EComp. exact K1.
     - (* ELogged *)
-      destruct (IHe Hf Hc o Ho) as (E1 & V1 & K1).
+      destruct (IHe D Hc o Ho) as (E1 & V1 & K1).
       split; [|split].
       + unf eval_ELogged. apply Sim_wrap. apply Sim_bind; [leaf|]. intros _.
         apply Sim_bind; [|intros; exact E1].
@@ -973,8 +978,8 @@ Section CacheSim.
       + unf validate_ELogged. exact V1.
       + unf keys_ELogged. exact K1.
     - (* EPipe *)
-      assert (HA : forall x, In x steps -> SimAll x).
-      { intros x Hx. rewrite Forall_forall in H. apply (H x Hx); [apply (frag_all_In steps Hf x Hx)|apply (coh_all_In steps Hc x Hx)]. }
+      assert (HA : forall x, In x steps -> SimAll x D).
+      { intros x Hx. rewrite Forall_forall in H. apply (H x Hx D). apply (coh_all_In steps D Hc x Hx). }
       split; [|split].
       + unf eval_EPipe. apply Sim_wrap. apply Sim_bind; [|intros; leaf].
         apply Sim_mapM; intros x Hx; apply (HA x Hx o Ho).
@@ -1013,18 +1018,18 @@ Section CacheSim.
     | HKeys e o => OKeys (resN (keysN e o))
     end.
 
+  (** every operation's expression is covered, starting from the operation's own dictionary *)
   Definition hist_ok (h : list hop) : Prop :=
-    forall p, In p h -> frag (hop_expr p) = true /\ coh (hop_expr p) /\ okd (hop_opts p).
+    forall p, In p h -> scoh (hop_expr p) (eq (hop_opts p)).
 
   Theorem history_transparent h : forall s,
     Sound s -> hist_ok h -> run_hist h s = map ref_op h.
   Proof.
     induction h as [|p h IH]; intros s Hs Hh; [reflexivity|].
-    assert (Hp : frag (hop_expr p) = true /\ coh (hop_expr p) /\ okd (hop_opts p)) by (apply Hh; now left).
+    assert (Hc : scoh (hop_expr p) (eq (hop_opts p))) by (apply Hh; now left).
     assert (Hh' : hist_ok h) by (intros q Hq; apply Hh; now right).
-    destruct Hp as (Hf & Hc & Ho).
     destruct p as [e o|e o|e o]; cbn [hop_expr hop_opts] in *;
-      destruct (sim_all e Hf Hc o Ho) as (E & V & K); cbn [run_hist map ref_op].
+      destruct (sim_all e _ Hc o eq_refl) as (E & V & K); cbn [run_hist map ref_op].
     - destruct (E s Hs) as [H1 H2]. rewrite H1. f_equal. now apply IH.
     - destruct (V s Hs) as [H1 H2]. rewrite H1. f_equal. now apply IH.
     - destruct (K s Hs) as [H1 H2]. rewrite H1. f_equal. now apply IH.
